@@ -40,6 +40,9 @@ pub enum NetOp {
     Heartbeat(u16),
     Publish { node: u16, topic: u8, big: bool },
     AdvanceMs(u16),
+    /// the application of a validating node accepts the k-th message still waiting for its
+    /// validation result (`report_message_validation_result(.., Accept)`)
+    Validate(u16),
 }
 
 #[derive(Clone, Debug, Serialize, Deserialize)]
@@ -51,6 +54,17 @@ pub struct Case {
     pub flood_publish: bool,
     pub prefix: Vec<NetOp>,
     pub stable: Vec<NetOp>,
+    /// protocol level per node: 1 floodsub-only, 2..5 gossipsub 1.0..1.3 (missing = 5); a link
+    /// negotiates the minimum of its two ends
+    #[serde(default)]
+    pub levels: Vec<u8>,
+    /// nodes running with `validate_messages()`: forwarding waits for the application's verdict
+    #[serde(default)]
+    pub validating: Vec<bool>,
+    /// explicit ("direct") peerings: (edge pick, 0 = both ends, 1 = only the lower-numbered end,
+    /// 2 = only the higher-numbered end call add_explicit_peer)
+    #[serde(default)]
+    pub explicit: Vec<(u16, u8)>,
 }
 
 fn op_strategy(stable: bool) -> impl Strategy<Value = NetOp> {
@@ -62,6 +76,7 @@ fn op_strategy(stable: bool) -> impl Strategy<Value = NetOp> {
             2 => any::<u16>().prop_map(NetOp::Heartbeat),
             5 => (any::<u16>(), prop_oneof![4 => Just(0u8), 1 => Just(1u8)], prop::bool::weighted(0.15)).prop_map(|(node, topic, big)| NetOp::Publish { node, topic, big }),
             1 => (0u16..500).prop_map(NetOp::AdvanceMs),
+            3 => any::<u16>().prop_map(NetOp::Validate),
         ]
         .boxed()
     } else {
@@ -76,6 +91,7 @@ fn op_strategy(stable: bool) -> impl Strategy<Value = NetOp> {
             3 => any::<u16>().prop_map(NetOp::Heartbeat),
             3 => (any::<u16>(), prop_oneof![3 => Just(0u8), 1 => Just(1u8)], prop::bool::weighted(0.1)).prop_map(|(node, topic, big)| NetOp::Publish { node, topic, big }),
             1 => (0u16..2000).prop_map(NetOp::AdvanceMs),
+            2 => any::<u16>().prop_map(NetOp::Validate),
         ]
         .boxed()
     }
@@ -91,9 +107,21 @@ fn strategy() -> BoxedStrategy<Case> {
                 any::<bool>(),
                 prop::collection::vec(op_strategy(false), 0..60),
                 prop::collection::vec(op_strategy(true), 1..60),
+                // 40 % of the networks are homogeneous (every node speaks gossipsub 1.3); in the others
+                // each node is floodsub-only with probability 0.2 and an older gossipsub with 0.25
+                prop_oneof![
+                    4 => Just(vec![]),
+                    6 => prop::collection::vec(prop_oneof![11 => Just(5u8), 2 => Just(4u8), 2 => Just(3u8), 1 => Just(2u8), 4 => Just(1u8)], n as usize),
+                ],
+                // half of the networks have no validating node; otherwise each node validates with probability 0.5
+                prop_oneof![1 => Just(vec![]), 1 => prop::collection::vec(any::<bool>(), n as usize)],
+                prop_oneof![
+                    2 => Just(vec![]),
+                    3 => prop::collection::vec((any::<u16>(), prop_oneof![6 => Just(0u8), 1 => Just(1u8), 1 => Just(2u8)]), 1..=(n as usize).min(5)),
+                ],
             )
         })
-        .prop_map(|(n, tree, extra, flood_publish, prefix, stable)| Case { n, tree, extra, flood_publish, prefix, stable })
+        .prop_map(|(n, tree, extra, flood_publish, prefix, stable, levels, validating, explicit)| Case { n, tree, extra, flood_publish, prefix, stable, levels, validating, explicit })
         .boxed()
 }
 
@@ -121,6 +149,17 @@ struct Net {
     /// some node unsubscribed t1 at some point: PRUNE backoffs exist on t1 and its meshes may be
     /// thinner than D_lo, so delivery on t1 is probabilistic (gossip to a random subset)
     t1_backoffs: bool,
+    /// protocol level per node (1 = floodsub-only)
+    levels: Vec<u8>,
+    validating: Vec<bool>,
+    /// explicit[x] = nodes x has added as explicit peers
+    explicit: Vec<BTreeSet<usize>>,
+    /// messages waiting for the application's verdict: (node, message id, propagation source, wire key)
+    pending: Vec<(usize, gs::MessageId, PeerId, MsgKey)>,
+    // generator-distribution counters
+    accepted_after_duplicate: u32,
+    first_copy_via_third_party_while_source_is_direct: u32,
+    forwarded_by_floodsub_node: u32,
 }
 
 fn key_of(m: &pb::Message) -> MsgKey {
@@ -149,7 +188,7 @@ impl Net {
         self.nodes[x].drain();
         let events: Vec<gs::Event> = self.nodes[x].app_events.drain(..).collect();
         for ev in events {
-            if let gs::Event::Message { message, .. } = ev {
+            if let gs::Event::Message { message, message_id, propagation_source } = ev {
                 let key: MsgKey = (message.source.map(|p| p.to_bytes()).unwrap_or_default(), message.sequence_number.map(|s| s.to_be_bytes().to_vec()).unwrap_or_default());
                 let t = topic_ix(message.topic.as_str());
                 let c = self.delivered.entry((x, key.clone())).or_insert(0);
@@ -165,6 +204,9 @@ impl Net {
                 if !self.sub[x][t as usize] {
                     return Err(Outcome::fail("C27:delivered-to-non-subscriber", json!({"node": x, "topic": t})));
                 }
+                if self.validating[x] {
+                    self.pending.push((x, message_id, propagation_source, key));
+                }
             }
         }
         for (e, y) in self.neighbours(x) {
@@ -176,10 +218,21 @@ impl Net {
                 for m in &rpc.publish {
                     let key = key_of(m);
                     if m.from.as_deref() == Some(&self.ids[y].to_bytes()[..]) {
-                        return Err(Outcome::fail("C27:message-sent-to-its-source", json!({"sender": x, "recipient": y, "topic": m.topic})));
+                        return Err(Outcome::fail(
+                            "C27:message-sent-to-its-source",
+                            json!({"sender": x, "recipient": y, "topic": m.topic, "source_is_explicit_peer_of_sender": self.explicit[x].contains(&y),
+                                   "link_level": self.levels[x].min(self.levels[y])}),
+                        ));
                     }
                     if self.received[x].get(&key).map(|s| s.contains(&y)).unwrap_or(false) {
-                        return Err(Outcome::fail("C27:message-sent-back-to-a-peer-it-was-received-from", json!({"sender": x, "recipient": y, "topic": m.topic})));
+                        return Err(Outcome::fail(
+                            "C27:message-sent-back-to-a-peer-it-was-received-from",
+                            json!({"sender": x, "recipient": y, "topic": m.topic, "sender_validates": self.validating[x],
+                                   "received_from": self.received[x].get(&key).map(|s| s.iter().copied().collect::<Vec<_>>())}),
+                        ));
+                    }
+                    if self.levels[x] == 1 && m.from.as_deref() != Some(&self.ids[x].to_bytes()[..]) {
+                        self.forwarded_by_floodsub_node += 1;
                     }
                 }
                 self.links.entry((x, y)).or_default().push_back(f);
@@ -198,7 +251,16 @@ impl Net {
         let Some(e) = self.edges.iter().position(|(a, b)| (*a == x && *b == y) || (*a == y && *b == x)) else { return Ok(()) };
         let rpc = unframe(&f).expect("parses");
         for m in &rpc.publish {
-            self.received[y].entry(key_of(m)).or_default().insert(x);
+            let key = key_of(m);
+            if !self.received[y].contains_key(&key) {
+                if let Some(src) = self.msgs.get(&key).map(|i| i.publisher) {
+                    let linked = self.neighbours(y).iter().any(|(_, z)| *z == src);
+                    if src != x && src != y && linked && (self.explicit[y].contains(&src) || self.levels[y].min(self.levels[src]) == 1) {
+                        self.first_copy_via_third_party_while_source_is_direct += 1;
+                    }
+                }
+            }
+            self.received[y].entry(key).or_default().insert(x);
         }
         self.frames += 1;
         let id = self.conn_id(e);
@@ -224,6 +286,34 @@ impl Net {
         }
     }
 
+    /// the application accepts the k-th pending message
+    fn validate(&mut self, k: usize) -> Result<(), Outcome> {
+        if k >= self.pending.len() {
+            return Ok(());
+        }
+        let (x, id, src, key) = self.pending.remove(k);
+        if self.received[x].get(&key).map(|s| s.len()).unwrap_or(0) >= 2 {
+            self.accepted_after_duplicate += 1;
+        }
+        let _ = self.nodes[x].gs.report_message_validation_result(&id, &src, gs::MessageAcceptance::Accept);
+        self.after_step(x)
+    }
+
+    /// deliver everything in flight and accept everything pending until the network is quiet
+    fn settle(&mut self, max_frames: u64) -> Result<bool, Outcome> {
+        loop {
+            if !self.flush(max_frames)? {
+                return Ok(false);
+            }
+            if self.pending.is_empty() {
+                return Ok(true);
+            }
+            while !self.pending.is_empty() {
+                self.validate(0)?;
+            }
+        }
+    }
+
     fn connect_edge(&mut self, e: usize) -> Result<(), Outcome> {
         if self.up[e] {
             return Ok(());
@@ -234,9 +324,10 @@ impl Net {
         let (pa, pb_) = (self.ids[a], self.ids[b]);
         self.nodes[a].connect(pb_, id, true);
         self.nodes[b].connect(pa, id, false);
-        // both ends negotiated the highest common protocol (/meshsub/1.3.0)
-        self.nodes[a].peer_kind(id, 5);
-        self.nodes[b].peer_kind(id, 5);
+        // both ends negotiated the highest common protocol (floodsub if one end speaks nothing else)
+        let kind = self.levels[a].min(self.levels[b]);
+        self.nodes[a].peer_kind(id, kind);
+        self.nodes[b].peer_kind(id, kind);
         self.after_step(a)?;
         self.after_step(b)
     }
@@ -330,9 +421,31 @@ fn run_case(case: &Case) -> Result<Outcome, Outcome> {
         }
     }
     let has_cycle = edges.len() >= n;
-    let cfg = NodeCfg { flood_publish: case.flood_publish, ..NodeCfg::default_mesh() };
-    let nodes: Vec<Node> = (0..n).map(|i| Node::new(node_key(100 + i as u16), &cfg)).collect();
+    let levels: Vec<u8> = (0..n).map(|i| case.levels.get(i).copied().unwrap_or(5).clamp(1, 5)).collect();
+    let validating: Vec<bool> = (0..n).map(|i| case.validating.get(i).copied().unwrap_or(false)).collect();
+    let nodes: Vec<Node> = (0..n)
+        .map(|i| Node::new(node_key(100 + i as u16), &NodeCfg { flood_publish: case.flood_publish, validate_messages: validating[i], ..NodeCfg::default_mesh() }))
+        .collect();
     let ids: Vec<PeerId> = nodes.iter().map(|x| x.local).collect();
+    // explicit peerings are configured before any link comes up (as an operator would)
+    let mut explicit: Vec<BTreeSet<usize>> = vec![BTreeSet::new(); n];
+    let mut asymmetric_explicit = false;
+    for (e, mode) in &case.explicit {
+        let (a, b) = edges[pick(*e, edges.len())];
+        if *mode != 2 {
+            explicit[a].insert(b);
+        }
+        if *mode != 1 {
+            explicit[b].insert(a);
+        }
+    }
+    for a in 0..n {
+        for b in &explicit[a] {
+            if !explicit[*b].contains(&a) {
+                asymmetric_explicit = true;
+            }
+        }
+    }
     let mut net = Net {
         index: ids.iter().enumerate().map(|(i, p)| (*p, i)).collect(),
         ids,
@@ -346,8 +459,22 @@ fn run_case(case: &Case) -> Result<Outcome, Outcome> {
         sub: vec![[false; 2]; n],
         frames: 0,
         t1_backoffs: false,
+        levels,
+        validating,
+        explicit,
+        pending: vec![],
+        accepted_after_duplicate: 0,
+        first_copy_via_third_party_while_source_is_direct: 0,
+        forwarded_by_floodsub_node: 0,
     };
     let _ = &net.index;
+    for a in 0..n {
+        for b in net.explicit[a].clone() {
+            let pb_ = net.ids[b];
+            net.nodes[a].gs.add_explicit_peer(&pb_);
+        }
+        net.nodes[a].drain(); // the Dial requests for not yet connected explicit peers
+    }
     let mut counter = 0u32;
     let mut advanced = Duration::ZERO;
     let mut publishers: BTreeSet<usize> = BTreeSet::new();
@@ -414,6 +541,12 @@ fn run_case(case: &Case) -> Result<Outcome, Outcome> {
                     publishers.insert(x);
                 }
             }
+            NetOp::Validate(k) => {
+                if !net.pending.is_empty() {
+                    let k = pick(*k, net.pending.len());
+                    net.validate(k)?;
+                }
+            }
             NetOp::AdvanceMs(ms) => {
                 // stay well inside the duplicate-cache lifetime (60 s)
                 let d = Duration::from_millis(*ms as u64);
@@ -439,7 +572,7 @@ fn run_case(case: &Case) -> Result<Outcome, Outcome> {
         }
     }
     for _ in 0..3 {
-        if !net.flush(MAX_FRAMES)? {
+        if !net.settle(MAX_FRAMES)? {
             return Ok(Outcome::Inconclusive("frame bound exceeded while stabilising".into()));
         }
         for x in 0..n {
@@ -447,7 +580,7 @@ fn run_case(case: &Case) -> Result<Outcome, Outcome> {
             net.after_step(x)?;
         }
     }
-    if !net.flush(MAX_FRAMES)? {
+    if !net.settle(MAX_FRAMES)? {
         return Ok(Outcome::Inconclusive("frame bound exceeded while stabilising".into()));
     }
     // stable phase
@@ -456,7 +589,7 @@ fn run_case(case: &Case) -> Result<Outcome, Outcome> {
     }
     // final rounds: history_gossip (3) + 2
     for _ in 0..5 {
-        if !net.flush(MAX_FRAMES)? {
+        if !net.settle(MAX_FRAMES)? {
             return Ok(Outcome::Inconclusive("frame bound exceeded in the final rounds".into()));
         }
         for x in 0..n {
@@ -464,7 +597,7 @@ fn run_case(case: &Case) -> Result<Outcome, Outcome> {
             net.after_step(x)?;
         }
     }
-    if !net.flush(MAX_FRAMES)? {
+    if !net.settle(MAX_FRAMES)? {
         return Ok(Outcome::Inconclusive("frame bound exceeded in the final rounds".into()));
     }
 
@@ -472,7 +605,9 @@ fn run_case(case: &Case) -> Result<Outcome, Outcome> {
     let mut stable_msgs = 0;
     let mut fanout_publish = false;
     for (key, info) in &net.msgs {
-        if !info.stable || (info.topic == 1 && net.t1_backoffs) {
+        // a one-sided explicit peering keeps the pair out of each other's mesh while only one side
+        // forwards unconditionally: the other direction depends on gossip to a random subset
+        if !info.stable || (info.topic == 1 && net.t1_backoffs) || asymmetric_explicit {
             continue;
         }
         stable_msgs += 1;
@@ -528,15 +663,40 @@ fn run_case(case: &Case) -> Result<Outcome, Outcome> {
     if net.t1_backoffs {
         labels.push("t1_unsubscribed_somewhere_completeness_on_t1_skipped");
     }
+    if net.levels.iter().any(|l| *l == 1) {
+        labels.push("has_floodsub_only_node");
+    }
+    if net.levels.iter().any(|l| (2..5).contains(l)) {
+        labels.push("has_older_gossipsub_node");
+    }
+    if net.validating.iter().any(|v| *v) {
+        labels.push("has_validating_node");
+    }
+    if net.explicit.iter().any(|s| !s.is_empty()) {
+        labels.push("has_explicit_peering");
+    }
+    if asymmetric_explicit {
+        labels.push("one_sided_explicit_peering_completeness_skipped");
+    }
+    if net.accepted_after_duplicate > 0 {
+        labels.push("accepted_after_a_duplicate_arrived_from_another_peer");
+    }
+    if net.first_copy_via_third_party_while_source_is_direct > 0 {
+        labels.push("first_copy_via_third_party_while_source_is_explicit_or_floodsub_neighbour");
+    }
+    if net.forwarded_by_floodsub_node > 0 {
+        labels.push("forwarded_by_floodsub_only_node");
+    }
     Ok(Outcome::pass_l(has_cycle && publishers.len() >= 2 && stable_msgs > 0, labels))
 }
 
 pub fn run(ctx: &mut Ctx) {
     ctx.assume("hooks: verif::decode (real codec incl. signature validation), Handler::verif_pop_wire, Behaviour::verif_heartbeat, verif::peer_kind_event, virtual clock (total advance <= 30 s, inside the 60 s duplicate-cache lifetime)");
+    ctx.assume("a validating node's application accepts every message (never rejects/ignores), at a generated point of the schedule and at the latest before the next stabilisation / final round; explicit peerings are configured before any link is up; completeness is not asserted for networks with a one-sided explicit peering (the pair stays out of each other's mesh and only one direction forwards unconditionally)");
     ctx.assume("links are reliable FIFO; default mesh parameters (D_lo 5, D 6, D_hi 12, gossip_lazy 6, history 5/3); topic t0 is never unsubscribed; completeness only for messages published after stabilisation with <= 2 heartbeats per node before the final rounds (otherwise the bounded gossip window makes delivery depend on the schedule); exceeding the frame bound is inconclusive");
     ctx.check::<Case>(
         "networks",
-        "connected graph on 2..12 nodes (generated spanning tree + extra edges), all nodes end up subscribed to t0, some to t1; generated order of link establishment, subscription exchange, heartbeats, publishes (small / >1000 B so IDONTWANT is used) and per-link frame delivery; safety after every step, completeness after 5 final heartbeat rounds; non-trivial = graph with a cycle, >=2 publishing nodes and >=1 message whose completeness was checked",
+        "connected graph on 2..12 nodes (generated spanning tree + extra edges), all nodes end up subscribed to t0, some to t1; 60% heterogeneous networks (node = floodsub-only 20% / gossipsub 1.0-1.2 25% / 1.3; a link negotiates the minimum), 50% with nodes running validate_messages() whose application accepts each message at a generated later point (duplicates may arrive in between), 60% with 1..5 explicit peerings (3/4 two-sided); generated order of link establishment, subscription exchange, heartbeats, publishes (small / >1000 B so IDONTWANT is used) and per-link frame delivery; safety after every step, completeness after 5 final heartbeat rounds; non-trivial = graph with a cycle, >=2 publishing nodes and >=1 message whose completeness was checked",
         ctx.n(5_000, 150_000),
         &strategy,
         &check,
